@@ -276,6 +276,12 @@ func FromIncomingContext(ctx context.Context) (MD, bool) {
 		// map, and there's no guarantee that the MD attached to the context is
 		// created using our helper functions.
 		key := strings.ToLower(k)
+		if prev, ok := out[key]; ok {
+			// Two keys of a hand-built MD differ only in case: keep the
+			// values of both instead of letting one overwrite the other.
+			out[key] = append(prev, v...)
+			continue
+		}
 		out[key] = copyOf(v)
 	}
 	return out, true
@@ -345,6 +351,12 @@ func FromOutgoingContext(ctx context.Context) (MD, bool) {
 		// map, and there's no guarantee that the MD attached to the context is
 		// created using our helper functions.
 		key := strings.ToLower(k)
+		if prev, ok := out[key]; ok {
+			// Two keys of a hand-built MD differ only in case: keep the
+			// values of both instead of letting one overwrite the other.
+			out[key] = append(prev, v...)
+			continue
+		}
 		out[key] = copyOf(v)
 	}
 	for _, added := range raw.added {
